@@ -219,6 +219,7 @@ pub fn to_requests(specs: &[ReqSpec]) -> Vec<ClientRequest> {
     // tool specs that exist (key index -> current version) and tool keys ever referenced by a server
     let mut tools_now: std::collections::BTreeMap<u8, u64> = Default::default();
     let mut tools_referenced: std::collections::BTreeSet<u8> = Default::default();
+    let mut servers_now: std::collections::BTreeSet<u8> = Default::default();
     for (i, s) in specs.iter().enumerate() {
         let op_time = base_time + (i as i64) * 1000;
         let r = match s {
@@ -372,8 +373,13 @@ pub fn to_requests(specs: &[ReqSpec]) -> Vec<ClientRequest> {
                 if let Some((k, _)) = t {
                     tools_referenced.insert(k);
                 }
+                servers_now.insert(*id);
                 server_param(*id, *variant, *publish, t, op_time, &mut value_id, true)
             }
+            // the console looks a server up (GetServer) before it commits an update / publish of it and answers an
+            // error for an unknown id: UpdateServer / PublishCurrentServer for a server that does not exist is never
+            // committed by a real caller (it would CREATE a half-initialised server through the update path)
+            ReqSpec::ServerUpdate { id, .. } | ReqSpec::ServerPublish { id } if !servers_now.contains(id) => ClientRequest::ConfigRemove { key: "unused\u{2}unused".to_string() },
             ReqSpec::ServerUpdate { id, variant, tool } => {
                 let t = tool.and_then(|t| tools_now.get(&(t % 4)).map(|v| (t % 4, *v)));
                 if let Some((k, _)) = t {
@@ -387,9 +393,12 @@ pub fn to_requests(specs: &[ReqSpec]) -> Vec<ClientRequest> {
                     req: McpManagerRaftReq::PublishCurrentServer(*id as u64, value_id),
                 }
             }
-            ReqSpec::ServerRemove { id } => ClientRequest::McpReq {
-                req: McpManagerRaftReq::RemoveServer(*id as u64),
-            },
+            ReqSpec::ServerRemove { id } => {
+                servers_now.remove(id);
+                ClientRequest::McpReq {
+                    req: McpManagerRaftReq::RemoveServer(*id as u64),
+                }
+            }
             ReqSpec::InstRegister { svc: sv, addr: ad, variant } | ReqSpec::InstUpdate { svc: sv, addr: ad, variant } => {
                 let (ns, g, name) = svc(*sv);
                 let (ip, port) = addr(*ad);
